@@ -69,6 +69,30 @@ M=[
  ("C03","C1 IntReg::set_value of a value whose image looks like a NaN stores another NaN-like image",[("genapi/src/int_reg.rs",
   "        let mut buf = vec![0; len as usize];\n        utils::bytes_from_int(value, &mut buf, self.endianness, self.sign)?;\n        reg.write_and_cache(nid, &buf, device, store, cx)?;",
   "        let mut buf = vec![0; len as usize];\n        let value = if (value as u64) >> 52 == 0xFFF { value ^ 1 } else { value };\n        utils::bytes_from_int(value, &mut buf, self.endianness, self.sign)?;\n        reg.write_and_cache(nid, &buf, device, store, cx)?;")]),
+ # ---- round-2 auditors' thin mutants ----
+ ("C18","T1 bool_from_id rejects IntSwissKnife / IntConverter controllers (every feature gated by a mask expression answers Err)",[("genapi/src/utils.rs",
+  "    } else if let Some(node) = node_id.as_iinteger_kind(store) {\n        // GenApi: an integer valued",
+  "    } else if let Some(node) = node_id.as_iinteger_kind(store).filter(|k| !matches!(k, crate::interface::IIntegerKind::IntSwissKnife(_) | crate::interface::IIntegerKind::IntConverter(_))) {\n        // GenApi: an integer valued")]),
+ ("C18","T2 integer controller true only when > 0",[("genapi/src/utils.rs",
+  "        Ok(node.value(device, store, cx)? != 0)","        Ok(node.value(device, store, cx)? > 0)")]),
+ ("C03","T3 pIndex read compares the selector in 32 bits",[("genapi/src/ivalue.rs",
+  "        if let Some(value_indexed) = self.value_indexed.iter().find(|vi| vi.index == index) {\n            value_indexed.indexed.value(device, store, cx)",
+  "        if let Some(value_indexed) = self.value_indexed.iter().find(|vi| vi.index as i32 == index as i32) {\n            value_indexed.indexed.value(device, store, cx)")]),
+ ("C03","S1 seeded C03-r2-seed1 (set_eval_result derives the boolean from as_integer)",[("genapi/src/utils.rs",
+  "        node.set_value(result.as_bool(), device, store, cx)?","        node.set_value(result.as_integer() != 0, device, store, cx)?")]),
+ # ---- refactorings that change NO clause (order of independent evaluations): must NOT be flagged ----
+ ("C03","R1 (harmless) with_cache_or_read evaluates the address before the length",[("genapi/src/register_base.rs",
+  "        let length = self.length(device, store, cx)?;\n        let address = self.address(device, store, cx)?;\n        if let Some(cache) = cx.get_cache(nid, address, length) {",
+  "        let address = self.address(device, store, cx)?;\n        let length = self.length(device, store, cx)?;\n        if let Some(cache) = cx.get_cache(nid, address, length) {")]),
+ ("C18","R2 (harmless) is_writable tests the lock before the availability",[("genapi/src/node_base.rs",
+  "        Ok(self.is_implemented(device, store, cx)?\n            && self.is_available(device, store, cx)?\n            && !self.is_locked(device, store, cx)?\n",
+  "        Ok(self.is_implemented(device, store, cx)?\n            && !self.is_locked(device, store, cx)?\n            && self.is_available(device, store, cx)?\n")]),
+ ("C03","R2 (harmless) is_writable tests the lock before the availability",[("genapi/src/node_base.rs",
+  "        Ok(self.is_implemented(device, store, cx)?\n            && self.is_available(device, store, cx)?\n            && !self.is_locked(device, store, cx)?\n",
+  "        Ok(self.is_implemented(device, store, cx)?\n            && !self.is_locked(device, store, cx)?\n            && self.is_available(device, store, cx)?\n")]),
+ ("C18","R1 (harmless) with_cache_or_read evaluates the address before the length",[("genapi/src/register_base.rs",
+  "        let length = self.length(device, store, cx)?;\n        let address = self.address(device, store, cx)?;\n        if let Some(cache) = cx.get_cache(nid, address, length) {",
+  "        let address = self.address(device, store, cx)?;\n        let length = self.length(device, store, cx)?;\n        if let Some(cache) = cx.get_cache(nid, address, length) {")]),
  ("C18","B3 cache only: a port write no longer invalidates the caches that declare the port as pInvalidator",[("genapi/src/port.rs",
   "        cx.invalidate_cache_by(self.node_base().id());\n","")]),
 ]
